@@ -388,7 +388,29 @@ func (g *gen) rpc(id int) *RPC {
 	}
 	// adversarial deviations
 	if g.p(k.pDeviate) {
-		switch g.pick(6) {
+		switch g.pick(7) {
+		case 6: // the handler gives up on the requests: it reads a few and returns while the client is still sending
+			if r.Kind == KClientStream || r.Kind == KBidi {
+				nr := 0
+				if nReq > 0 {
+					nr = g.pick(nReq)
+				}
+				h = nil
+				for i := 0; i < nr; i++ {
+					h = append(h, Op{K: "recv"})
+				}
+				h = append(h, Op{K: "return", St: g.maybeStatus()})
+				if http && g.p(0.5) {
+					// ... with more outstanding than a server reads on its own
+					// after the handler is gone (net/http discards up to 256 KiB
+					// of an unread request body)
+					for i := range c {
+						if c[i].K == "send" && c[i].Msg != nil && c[i].Msg.Kind != 4 {
+							c[i].Msg.Size = 90000 + g.pick(250000)
+						}
+					}
+				}
+			}
 		case 0: // operations after completion
 			c = append(c, recvOp(), Op{K: "send", Msg: g.msg()}, Op{K: "closesend"}, Op{K: "header"}, Op{K: "trailer"})
 		case 1: // handler returns early
@@ -396,6 +418,7 @@ func (g *gen) rpc(id int) *RPC {
 				cut := 1 + g.pick(len(h)-1)
 				h = append(append([]Op{}, h[:cut]...), Op{K: "return", St: g.maybeStatus()})
 			}
+
 		case 2: // client never closes its side
 			if !http {
 				var c2 []Op
